@@ -151,7 +151,7 @@ def payloadOf (n : Nat) : Bytes := (List.range n).map fun i => UInt8.ofNat (i * 
 
 /-- the model's Encode + the caller's PutUint32(totalLenField) + Flush, then the model's Decode of
     frame ++ payload -/
-def encModel (wk : String) (p : EncParam) (plen : Nat) : String :=
+def encModel (wk : String) (p : EncParam) (plen : Int) : String :=
   let w0 : W := { items := [], n := 0, broken := wk == "x", dirt := fun _ _ => 0 }
   match encode p w0 with
   | .err _ => "err"
@@ -161,7 +161,7 @@ def encModel (wk : String) (p : EncParam) (plen : Nat) : String :=
     let total : Int := (r.2.bytes.length : Int) + plen - 4
     match setTotalLen r.2 r.1 (ofInt 32 total) with
     | .ok w =>
-      let all := w.bytes ++ payloadOf plen
+      let all := w.bytes ++ payloadOf plen.toNat
       s!"ok {toHex w.bytes} " ++ decStr (decodeBytes all all.length)
     | .err _ => "err"
     | .panic why => "PANIC " ++ why
@@ -183,7 +183,7 @@ def secStrs : List Frame.Sec → List (Bytes × Bytes)
 def sortedInt (m : List (Nat × Bytes)) := m.mergeSort (fun a b => a.1 ≤ b.1)
 def sortedStr (m : List (Bytes × Bytes)) := m.mergeSort (fun a b => !bytesLt b.1 a.1)
 
-def encVerdict (p : EncParam) (plen : Nat) (res : List String) : String :=
+def encVerdict (p : EncParam) (plen : Int) (res : List String) : String :=
   match res with
   | ["err"] => "ok"          -- "encoding either fails with an error or …"
   | "PANIC" :: _ => "bad:C06:panic"
@@ -213,7 +213,7 @@ def encVerdict (p : EncParam) (plen : Nat) (res : List String) : String :=
               else if !(sameStr (optL sm) p.strKV) then "bad:C06:roundtrip-strmap"
               else if hl != (frame.length : Int) then "bad:C06:headerlen"
               else if rl != frame.length then "bad:C06:consumed"
-              else if pl != (plen : Int) then "bad:C06:payloadlen"
+              else if pl != plen then "bad:C06:payloadlen"
               else "ok"
             | _, _, _, _, _, _, _, _ => "bad:protocol"
           | "PANIC" :: _ => "bad:C06:roundtrip-panic"
@@ -245,7 +245,7 @@ def handleTth (args : List String) (impl : String) : String × String :=
   let res := impl.splitOn " " |>.filter (· ≠ "")
   match args with
   | ["tth", "enc", wk, f, s, pr, im, sm, plen] =>
-    match f.toNat?, s.toInt?, pr.toNat?, parseIntKVs im, parseStrKVs sm, plen.toNat? with
+    match f.toNat?, s.toInt?, pr.toNat?, parseIntKVs im, parseStrKVs sm, plen.toInt? with
     | some f, some s, some pr, some im, some sm, some plen =>
       let p : EncParam := { flags := f, seq := s, proto := pr, intKV := optL im, strKV := optL sm }
       if !inDom p then ("bad-op", "na") else
